@@ -9,6 +9,10 @@ type C20Case struct {
 	// AutoMTLS (client kinds): the client asks for AutoMTLS and the plugin logs to its stderr from the moment
 	// it starts (start-up logging around the handshake)
 	AutoMTLS bool `json:"autoMTLS,omitempty"`
+	// SecondHost (client-grpc / client-netrpc): the plugin is started first, a second client reattaches to it and
+	// connects (a second set of stdio streams on the same plugin), and the round's operations include
+	// commands that make the plugin write to its stdout and stderr
+	SecondHost bool `json:"secondHost,omitempty"`
 }
 
 type C20Obs struct {
